@@ -90,6 +90,33 @@ CLAIMED = {
         "Trusted: vverif/spec_source.py, bytecode denotation, z3. Dynamic constructor arguments and create_from_blueprint equivalence are not covered.",
         "DESIGN.md 3/C13",
     ),
+    "C04": (
+        "proof",
+        "contract-based deductive verification, template route: bytecode vs reference semantics (bounds-checked subscripts, append/pop, slice/extract32/concat, loops; whole final state compared) on a container template family, all inputs, z3",
+        "Per template (static-array reads with every index signedness incl. nested, local and storage writes with neighbouring variables, struct arrays, DynArray append/pop/write/read in storage, transient storage and memory, loops over arrays, "
+        "slice/extract32/concat, length-dependent copies) and configuration, for ALL index/start/length words and prior state: the call succeeds iff the access is inside the object's current length and declared bound, returns the addressed data, "
+        "and the final storage/transient storage differs from the initial one exactly at the addressed element (whole-state comparison). Quick tier: for byte-string operations with symbolic start only the accept/revert decision and result length are decided; contents in the thorough tier.",
+        "Trusted: vverif/spec_source.py, spec_abi.py, bytecode denotation, z3/cvc5. Small bounds only (arrays <= 4, byte strings <= 40). Memory-to-memory frames are observed only through returned values.",
+        "DESIGN.md 3/C04",
+    ),
+    "C05": (
+        "proof",
+        "contract-based deductive verification, template route: bytecode vs reference semantics with the strict ABI decoder of vverif/spec_abi.py, all calldata, z3",
+        "Per template (every class of argument word incl. flags, structs, nested static arrays; Bytes/String with bounds 3..33; DynArray of uint8/bool/int128/structs mixing wide and narrow members; word + byte string, two byte strings; "
+        "keyword argument of byte-string type) and configuration, for ALL calldata (< 2**32 bytes): if the call succeeds, the values observed are the ABI decoding of the bytes (following the offsets) and lie in their types "
+        "(lengths within bounds, every scalar canonical, no address wrap-around); every canonical encoding of in-range values is accepted; other inputs may revert. Return data of external calls: C12; constructor arguments: C13.",
+        "Trusted: vverif/spec_abi.py (from the ABI specification), spec_source.py, bytecode denotation, z3. abi_decode() and dynamic return data of external calls are not in the reference semantics yet (covered relationally in C02/C12).",
+        "DESIGN.md 3/C05",
+    ),
+    "C06": (
+        "proof",
+        "contract-based deductive verification, template route: bytecode vs reference semantics with the canonical ABI encoder of vverif/spec_abi.py (byte-for-byte comparison at every position), all inputs, z3",
+        "Per template (tuple/struct/1-tuple returns, byte strings, dynamic arrays, signed words, literals; events with indexed topics, byte-string and dynamic-array data; assert/raise reasons as Error(string); values built in memory that held a longer value "
+        "before - overwrite, two logs, log then return, encode in a loop) and configuration, for ALL inputs: return data, log topics/data and revert payloads are byte for byte the canonical ABI encoding (offsets, lengths, zero padding, sign extension). "
+        "Calldata of outgoing interface calls with static arguments: C12.",
+        "Trusted: vverif/spec_abi.py, spec_source.py, bytecode denotation, z3. abi_encode() builtin, custom errors and dynamic external-call arguments are not in the reference semantics yet.",
+        "DESIGN.md 3/C06",
+    ),
     "C07": (
         "proof",
         "contract-based deductive verification, template route: the real compiler's run-time bytecode for each contract shape and configuration is denoted for all calldata/values and the dispatch contract is discharged by z3; jump-table kernels by bounded run-time contract evaluation",
